@@ -231,8 +231,10 @@ def clauses(tier, seed):
 
 
 def _pyvc_clauses():
+  from contracts import conformance_contracts as _conf
+  _extra = [_conf.clauses()[k] for k in ['C16']]
   from contracts import regrid_contracts
-  return regrid_contracts.clauses()
+  return regrid_contracts.clauses() + _extra
 
 
 MANIFEST = {
